@@ -19,6 +19,36 @@ pub fn run(out: &mut Out, tier: &str, rng: &mut Rng) {
         }
     }
     out.count_n("compat", 1);
+    // the identity record as the client's handshake decodes it: server side `Stream::send_packet(instance)`, client side
+    // `read_frame` + `recv_packet::<Instance>` (what `Stream::handshake` does after sending its session frame), for
+    // identities with empty / long / multi-byte model and serial strings, every machine type and version bytes
+    {
+        use glonax::core::{Instance, MachineType};
+        let rt = tokio::runtime::Builder::new_current_thread().enable_all().build().unwrap();
+        let texts: Vec<String> = vec!["".into(), "a".into(), "LE240".into(), "0.00000.0.00000".into(), "é".repeat(20), "x".repeat(255), "挖掘机".into(), " ".into()];
+        let ids = ["00000000-0000-0000-0000-000000000000", "d55bcd75-8d30-49af-ac18-ee7cbce7822f", "ffffffff-ffff-ffff-ffff-ffffffffffff"];
+        let types = [MachineType::Excavator, MachineType::WheelLoader, MachineType::Dozer, MachineType::Grader, MachineType::Hauler, MachineType::Forestry];
+        let mut k = 0usize;
+        for model in &texts {
+            for serial in &texts {
+                let ty = types[k % types.len()];
+                let ver = [(0u8, 0u8, 0u8), (3, 5, 13), (255, 255, 255)][k % 3];
+                let inst = Instance::new(ids[k % 3], model.clone(), ty, ver, serial.clone());
+                k += 1;
+                let tok = |i: &Instance| format!("{}:{}:{}:{}:{}:{}:{}", hex(i.id().as_bytes()), i.ty() as u8, i.version().0, i.version().1, i.version().2, hex(i.model().as_bytes()), hex(i.serial_number().as_bytes()));
+                let decoded: Result<Instance, String> = rt.block_on(async {
+                    let (a, b) = tokio::io::duplex(4096);
+                    let mut server = glonax::protocol::Stream::new(a);
+                    let mut client = glonax::protocol::Stream::new(b);
+                    server.send_packet(&inst).await.map_err(|e| format!("send:{:?}", e.kind()))?;
+                    let frame = client.read_frame().await.map_err(|e| format!("frame:{:?}", e.kind()))?;
+                    client.recv_packet::<Instance>(frame.payload_length).await.map_err(|e| format!("ERR:{:?}", e.kind()))
+                });
+                out.case(&format!("id {}", tok(&inst)), &match decoded { Ok(d) => tok(&d), Err(e) => e }, true);
+                out.count("identity decoded by the client");
+            }
+        }
+    }
     // --- all flags x names
     let names = ["", "a", &"n".repeat(64), &"m".repeat(65), &"é".repeat(64), &"€".repeat(70), "verif/😀"];
     for flags in 0..32u8 {
